@@ -84,3 +84,10 @@ Definition all_classified : bool := forallb (fun s => match class_of s with Some
 Definition unclassified : list site := filter (fun s => match class_of s with Some _ => false | None => true end) map_sites.
 Definition sensitive_only_known : bool :=
   forallb (fun s => negb (is_known_sensitive (class_of s)) || existsb (site_eqb s) known_sensitive_sites) map_sites.
+
+(* every site of class Sorted is, in the regenerated scan, followed inside the same function by a
+   call into package sort (sorted_after_sites is produced by the translator from the Go source) *)
+Definition is_sorted_class (c : option site_class) : bool :=
+  match c with Some Sorted => true | _ => false end.
+Definition sorted_backed : bool :=
+  forallb (fun s => negb (is_sorted_class (class_of s)) || existsb (site_eqb s) sorted_after_sites) map_sites.
